@@ -98,10 +98,11 @@ func BFS(cfg Config) *Stats {
 				}
 				obs := call.Do(w)
 				atomic.AddInt64(&st.Transitions, 1)
+				// the key is taken before After, which may probe the engine with further writes
+				k := sha256.Sum256([]byte(cfg.Key(w)))
 				if cfg.After != nil {
 					cfg.After(w, full, pre, obs)
 				}
-				k := sha256.Sum256([]byte(cfg.Key(w)))
 				w.Close()
 				succKeys[k] = true
 				mu.Lock()
